@@ -415,7 +415,7 @@ pub fn add_entry_long(p: &mut Plan, q: bool) {
             if !(f.entry.is_req() || f.entry.is_resp()) {
                 return;
             }
-            for size in [600usize, 4200, 7900] {
+            for size in [600usize, 4200, 7900, 20000, 70000] {
                 let full = (f.gen)(size);
                 for (_, input) in crate::s8::variants(&full) {
                     for cap in [1u32, (size / 3 + 8) as u32] {
@@ -429,8 +429,8 @@ pub fn add_entry_long(p: &mut Plan, q: bool) {
             }
         }));
     }
-    p.phases.push(Phase { label: format!("S2c/S8: header counts 0..={} and 99..513 × 5 shapes × 4 capacities × 4 tails, and {} size families × 3 sizes × 5 variants × 2 capacities, on every entry point of the kind", kmax, nf), backend: Backend::Native, tasks });
-    p.bounds.push(format!("entry-point agreement on long inputs: k = 0..={} and {{99..102,127..130,255..257,300,511,513}} minimal header lines (5 shapes, capacities k-1, k, k+1, 2k+4, 4 tails); size families at 600 / 4200 / 7900 bytes (complete, truncated, erroneous, with body; capacity 1 and enough)", kmax));
+    p.phases.push(Phase { label: format!("S2c/S8: header counts 0..={} and 99..513 × 5 shapes × 4 capacities × 4 tails, and {} size families × 5 sizes × 5 variants × 2 capacities, on every entry point of the kind", kmax, nf), backend: Backend::Native, tasks });
+    p.bounds.push(format!("entry-point agreement on long inputs: k = 0..={} and {{99..102,127..130,255..257,300,511,513}} minimal header lines (5 shapes, capacities k-1, k, k+1, 2k+4, 4 tails); size families at 600 / 4200 / 7900 / 20000 / 70000 bytes (complete, truncated, erroneous, with body; capacity 1 and enough)", kmax));
 }
 
 /// C17 on template mutants: capacity 16 against capacities 0..=4 (templates have <= 4 headers... up to k+2).
@@ -1126,6 +1126,37 @@ pub fn add_long_fields(p: &mut Plan, q: bool, backends: &[Backend], names: &[&st
                                     at_pos.step(f.fill);
                                 }
                             }
+                            // two cooperating bytes a vector lane (or several) apart: an in-class
+                            // edge byte x and an out-of-class byte y at distance d, both orders
+                            if !chain && (l == 130 || l == 200 || l == 300) {
+                                let xs: [u8; 4] = [0x09, 0x20, 0x21, 0xff];
+                                let ys: [u8; 5] = [0x00, 0x0a, 0x0d, 0x1f, 0x7f];
+                                for p1 in 0..l {
+                                    for d in [8usize, 16, 32, 64, 96, 128] {
+                                        let p2 = p1 + d;
+                                        if p2 >= l {
+                                            break;
+                                        }
+                                        for &x in &xs {
+                                            for &y in &ys {
+                                                for swap in [false, true] {
+                                                    let (a, b) = if swap { (y, x) } else { (x, y) };
+                                                    buf[fs + p1] = a;
+                                                    buf[fs + p2] = b;
+                                                    let mut m = base;
+                                                    m.feed(&buf[fs..]);
+                                                    ck.eval(&lane, &buf, Some(&m), None);
+                                                }
+                                            }
+                                        }
+                                        buf[fs + p2] = f.fill;
+                                        if ck.full() {
+                                            return;
+                                        }
+                                    }
+                                    buf[fs + p1] = f.fill;
+                                }
+                            }
                         }
                     }));
                 }
@@ -1137,7 +1168,7 @@ pub fn add_long_fields(p: &mut Plan, q: bool, backends: &[Backend], names: &[&st
         "S2b' long fields: {:?}, run length 71..={lmax} before the minimal remainder and 0..={lmax} before two 200-byte remainders (valid header lines + body; an invalid line first), one byte of a {}-value boundary set at every position (and none), complete and cut after the field{}, backends {:?}",
         fields.iter().map(|f| f.name).collect::<Vec<_>>(),
         if q { 13 } else { 32 },
-        " (when a streaming oracle is armed: 4 (8) offending values and a chain of 18 (35) cuts around +128/+256 behind the field start and behind the offender)",
+        " (when a streaming oracle is armed: 4 (8) offending values and a chain of 18 (35) cuts around +128/+256 behind the field start and behind the offender; otherwise also, at lengths 130/200/300, an in-class edge byte {09,20,21,FF} and an out-of-class byte {00,0A,0D,1F,7F} at distance 8/16/32/64/96/128, both orders, every position)",
         backends.iter().map(|b| b.name()).collect::<Vec<_>>()
     ));
 }
